@@ -1482,13 +1482,15 @@ where
     ) -> Result<VerifyTransition<Self, SEED_SIZE, 16>, VdafError> {
         if self.typ.joint_rand_len() > 0 {
             // Check that the joint randomness was correct.
-            if step
-                .joint_rand_seed
-                .as_ref()
-                .unwrap()
-                .ct_ne(msg.joint_rand_seed.as_ref().unwrap())
-                .into()
-            {
+            let (Some(own_joint_rand_seed), Some(joint_rand_seed)) =
+                (step.joint_rand_seed.as_ref(), msg.joint_rand_seed.as_ref())
+            else {
+                return Err(VdafError::Uncategorized(
+                    "verify state or verifier message is missing the joint randomness seed"
+                        .to_string(),
+                ));
+            };
+            if own_joint_rand_seed.ct_ne(joint_rand_seed).into() {
                 return Err(VdafError::Uncategorized(
                     "joint randomness mismatch".to_string(),
                 ));
